@@ -15,7 +15,11 @@ def sh(cmd, **kw):
 
 
 def main():
-    ids = sys.argv[1:] or sorted(os.listdir(SRC))
+    global SRC
+    argv = sys.argv[1:]
+    if "--src" in argv:
+        i = argv.index("--src"); SRC = argv[i + 1]; del argv[i:i + 2]
+    ids = argv or sorted(os.listdir(SRC))
     if not os.path.isdir(WT):
         rc, out = sh(["git", "-C", "/repo", "worktree", "add", "--detach", WT, "HEAD"])
         if rc:
